@@ -78,13 +78,14 @@ def showVal : Val → String
   | .flag b => if b then "f1" else "f0"
 
 def showOutcome : Outcome → String
-  | .ok => "ok" | .tooDeep => "toodeep" | .threwLogic => "logic"
+  | .ok => "ok" | .threwLogic => "logic"
   | .threwError => "error" | .threwInvalid => "invalid"
 
 def showErr : Err → String
   | .unknown n => s!"u{hex n}"
   | .flagArg n => s!"a{hex n}"
   | .fileError n => s!"f{hex n}"
+  | .fileNesting n => s!"n{hex n}"
 
 def joinOr (dflt : String) (l : List String) : String :=
   if l.isEmpty then dflt else ",".intercalate l
